@@ -80,17 +80,14 @@ package loader
 //@ func mergeProjects
 //@   flag trusted
 //@   ensures merges() == old(merges()) + 1 && mergeBaseAt(old(merges())) == base && mergeOverrideAt(old(merges())) == override
-//@   assigns everything_but merges[*], mergeBaseAt[*], mergeOverrideAt[*], loader.LoaderOptions.projects[*], heap(Elem.ptr.types.Project)
-//@   sets merges() := merges() + 1
-//@   sets mergeBaseAt(merges()) := base
-//@   sets mergeOverrideAt(merges()) := override
+//@   assigns deref(base), heap(MapVal.Str.types.ProcessConfig), heap(MapDom.Str.types.ProcessConfig), heap(Elem.Str), merges(), mergeBaseAt(merges()), mergeOverrideAt(merges())
 //@ func merge
-//@   requires opts != nil && len(opts.projects) >= 1
+//@   requires opts != nil && len(opts.projects) >= 1 && len(opts.FileNames) >= len(opts.projects) - 1
 //@   ensures result-is-first: result0 == old(opts.projects[0])
 //@   ensures single: len(opts.projects) == 1 ==> merges() == old(merges()) && result1 == nil
 //@   ensures all-in-order: result1 == nil ==> merges() == old(merges()) + len(opts.projects) - 1 &&
 //@        (forall i int {mergeOverrideAt(old(merges()) + i)} :: 0 <= i && i < len(opts.projects) - 1 ==> mergeBaseAt(old(merges()) + i) == old(opts.projects[0]) && mergeOverrideAt(old(merges()) + i) == old(opts.projects[i + 1]))
-//@   loop 1 invariant idx >= -1 && idx < len(opts.projects) - 1 && merges() == old(merges()) + idx + 1 && opts.projects == old(opts.projects) && len(opts.projects) >= 2
+//@   loop 1 invariant idx >= -1 && idx < len(opts.projects) - 1 && merges() == old(merges()) + idx + 1 && opts.projects == old(opts.projects) && opts.FileNames == old(opts.FileNames) && len(opts.projects) >= 2
 //@   loop 1 invariant forall i int {mergeOverrideAt(old(merges()) + i)} :: 0 <= i && i <= idx ==> mergeBaseAt(old(merges()) + i) == old(opts.projects[0]) && mergeOverrideAt(old(merges()) + i) == old(opts.projects[i + 1])
 //@   loop 1 invariant forall j int {opts.projects[j]} :: 0 <= j && j < len(opts.projects) ==> opts.projects[j] == old(opts.projects[j])
 
